@@ -354,6 +354,49 @@ def direct_table(fn, pb, targets=None):
 COSTS = ("uf", "ub", "wd", "rd")
 
 
+def memory_level_rule(chk, repo):
+    """cost model of the property: wd per checkpoint written to DISK, rd per load from DISK, nothing for RAM.  The
+    hierarchical builder takes one write and one read cost per level; every call of `hrevolve` from hrevolve.py must pass
+    vectors whose level-0 (memory) entry is the constant 0."""
+    rel = "hrevolve.py"
+    try:
+        _, callee = next((r, f) for r, q, f in repo.all_functions() if q == "hrevolve" and r.endswith("hrevolve_sequences/hrevolve.py"))
+    except StopIteration:
+        return
+    params = [a.arg for a in callee.args.args]
+    k = 0
+    for relq, q, f in repo.all_functions():
+        if relq != rel:
+            continue
+        defs = {}
+        for x in ast.walk(f):
+            if isinstance(x, ast.Assign) and len(x.targets) == 1 and isinstance(x.targets[0], ast.Name):
+                defs.setdefault(x.targets[0].id, []).append(x.value)
+        for c in ast.walk(f):
+            if not (isinstance(c, ast.Call) and isinstance(c.func, ast.Name) and c.func.id == "hrevolve"):
+                continue
+            bound = dict(zip(params, c.args))
+            bound.update({kw.arg: kw.value for kw in c.keywords if kw.arg})
+            for pname in ("wvect", "rvect"):
+                v = bound.get(pname)
+                cons = f"hrevolve.{q}#memory-level[{k}]/{pname}"
+                if v is None:
+                    continue
+                if isinstance(v, ast.Name) and len(defs.get(v.id, [])) == 1:
+                    v = defs[v.id][0]
+                if isinstance(v, (ast.List, ast.Tuple)) and v.elts:
+                    e0 = v.elts[0]
+                    if isinstance(e0, ast.Constant) and isinstance(e0.value, (int, float)) and not isinstance(e0.value, bool):
+                        chk.decide("C07.ROLE", cons, True if e0.value == 0 else False,
+                                   f"`{pname}` = `{ast.unparse(v)}`: level 0 (memory) costs {e0.value}" +
+                                   ("" if e0.value == 0 else "; the optimum is then taken for a cost model in which RAM transfers are "
+                                    "not free, not for the one the property states"), rel=rel, node=c, nontrivial=False)
+                        continue
+                chk.decide("C07.ROLE", cons, None, f"`{pname}` = `{ast.unparse(v)[:60]}`: level-0 entry not a literal", rel=rel, node=c,
+                           nontrivial=False)
+            k += 1
+
+
 def zero_default_rule(chk, repo):
     """cost plumbing of the Revolve-family constructors: a step cost may be 0 (free disk reads or writes), so a cost must
     not pass through `cost or default` / a truthiness test - `0 or d` is d: another cost vector than the one given is
@@ -417,6 +460,7 @@ def run(chk, ctx):
             detail = f"`{txt}`: role of an operand unknown"
         chk.decide("C07.ROLE", s.construct, v, detail, rel=s.rel, node=s.node)
     zero_default_rule(chk, repo)
+    memory_level_rule(chk, repo)
     chk.extra["role_sinks"] = len(rf.sinks)
     chk.extra["role_contexts"] = len(rf.seen)
     # ---- TABLE
